@@ -234,27 +234,32 @@ func raceCanary(t *testing.T) string {
 	if !simrt.RaceBuild {
 		return ""
 	}
-	mark := raceLogMark()
-	bubble(t, func() {
-		sim := simrt.New(simrt.NewChoices(1))
-		defer sim.Close()
-		done := 0
-		for i := 0; i < 2; i++ {
-			sim.GoNamed("canary", false, func() {
-				simrt.Yield(-50)
-				canaryTouch(1)
-				simrt.Yield(-50)
-				done++
-			})
-		}
-		sim.OnIdle = func() bool { return true }
-		sim.Run()
-		sim.Teardown()
-	})
+	// The detector's shadow memory is lossy (it is flushed under pressure), so
+	// a single miss proves nothing; blindness caused by the harness would be
+	// systematic. Three attempts.
 	p := raceLogPath()
-	b, _ := os.ReadFile(p)
-	if int64(len(b)) > mark && strings.Contains(string(b[mark:]), "canaryTouch") {
-		return ""
+	for attempt := 0; attempt < 3; attempt++ {
+		mark := raceLogMark()
+		bubble(t, func() {
+			sim := simrt.New(simrt.NewChoices(int64(1 + attempt)))
+			defer sim.Close()
+			done := 0
+			for i := 0; i < 2; i++ {
+				sim.GoNamed("canary", false, func() {
+					simrt.Yield(-50)
+					canaryTouch(1)
+					simrt.Yield(-50)
+					done++
+				})
+			}
+			sim.OnIdle = func() bool { return true }
+			sim.Run()
+			sim.Teardown()
+		})
+		b, _ := os.ReadFile(p)
+		if int64(len(b)) > mark && strings.Contains(string(b[mark:]), "canaryTouch") {
+			return ""
+		}
 	}
-	return "race canary silent: the detector did not report a deliberately racy pair of accesses (log " + p + ")"
+	return "race canary silent: the detector did not report a deliberately racy pair of accesses in three attempts (log " + p + ")"
 }
